@@ -28,3 +28,26 @@ pub open spec fn while_evs(cond: int, n: int, d: nat) -> Seq<Ev> {
 pub open spec fn if_labels(i: If) -> nat decreases i {
   match i.else_ { None => 1, Some(Else::Block(_)) => 2, Some(Else::If(inner)) => 2 + if_labels(*inner) }
 }
+
+// ---- operators (C01): operands in source order, the instruction of the operator, short circuit for and / or ---------------------------------------
+pub open spec fn binop_code(op: BinaryOp) -> SymbolicByteCode {
+  match op {
+    BinaryOp::Add => SymbolicByteCode::Add, BinaryOp::Sub => SymbolicByteCode::Subtract, BinaryOp::Mul => SymbolicByteCode::Multiply, BinaryOp::Div => SymbolicByteCode::Divide,
+    BinaryOp::Lt => SymbolicByteCode::Less, BinaryOp::LtEq => SymbolicByteCode::LessEqual, BinaryOp::Gt => SymbolicByteCode::Greater, BinaryOp::GtEq => SymbolicByteCode::GreaterEqual,
+    BinaryOp::Eq => SymbolicByteCode::Equal, BinaryOp::Ne => SymbolicByteCode::NotEqual,
+    BinaryOp::And => SymbolicByteCode::Nil, BinaryOp::Or => SymbolicByteCode::Nil,
+  }
+}
+pub open spec fn binary_evs(b: &Binary, n: int) -> Seq<Ev> {
+  match b.op {
+    // short circuit: the right operand is only evaluated behind And / Or, which jump FORWARD over it with the left operand as the result
+    BinaryOp::And => seq![Ev::Expr(b.lhs.id), Ev::Emit(SymbolicByteCode::And(Label(n as u32))), Ev::Expr(b.rhs.id), Ev::Emit(SymbolicByteCode::Label(Label(n as u32)))],
+    BinaryOp::Or => seq![Ev::Expr(b.lhs.id), Ev::Emit(SymbolicByteCode::Or(Label(n as u32))), Ev::Expr(b.rhs.id), Ev::Emit(SymbolicByteCode::Label(Label(n as u32)))],
+    // everything else: left operand, right operand, the operator
+    _ => seq![Ev::Expr(b.lhs.id), Ev::Expr(b.rhs.id), Ev::Emit(binop_code(b.op))],
+  }
+}
+pub open spec fn ternary_evs(t: &Ternary, n: int) -> Seq<Ev> {
+  seq![Ev::Expr(t.cond.id), Ev::Emit(SymbolicByteCode::JumpIfFalse(Label(n as u32))), Ev::Expr(t.then.id), Ev::Emit(SymbolicByteCode::Jump(Label((n + 1) as u32))),
+       Ev::Emit(SymbolicByteCode::Label(Label(n as u32))), Ev::Expr(t.else_.id), Ev::Emit(SymbolicByteCode::Label(Label((n + 1) as u32)))]
+}
